@@ -62,8 +62,8 @@ def gen_sched_case(rng, quick):
             if rng.random() < (0.9 if s == "o" else 0.6):
                 cls = rng.choices(["tiny", "small", "mid", "tailbuf", "burst"], [32, 32, 20, 8, 8])[0]
                 payload, _ = relay.gen_stream(rng, cls, targets)
-                if cls == "burst" and payload.count(b"\n") > 320:
-                    payload = b"\n".join(payload.split(b"\n")[:320]) + b"\n"   # every line is a scheduling point
+                if cls == "burst" and payload.count(b"\n") > 220:
+                    payload = b"\n".join(payload.split(b"\n")[:220]) + b"\n"   # every line is a scheduling point
                 if rng.random() < 0.25:
                     # a line of 2048 bytes or more (err.c's LINEBUFSIZE), so that a label and its long line
                     # written apart can be told from one call
@@ -333,7 +333,7 @@ def run_sched(ctx, prop, cov, dist, exe=None):
     if not exe:
         return
     quick = ctx.quick()
-    n = 260 if quick else 5000
+    n = 200 if quick else 5000
     specs = [gen_sched_case(rng, quick) for _ in range(n)]
 
     def one(spec):
